@@ -67,6 +67,8 @@ func main() {
 	}
 	b.WriteString("].\n\n")
 
+	fmt.Fprintf(&b, "Definition f_cav_min_user_defined : N := %d.\nDefinition f_cav_max_user_defined : N := %d.\nDefinition f_cav_unregistered : N := %d.\n",
+		uint64(macaroon.CavMinUserDefined), uint64(macaroon.CavMaxUserDefined), uint64(macaroon.CavUnregistered))
 	fmt.Fprintf(&b, "Definition f_scheme_flyv1 : string := %q.\n", macaroon.AuthorizationSchemeFlyV1)
 	fmt.Fprintf(&b, "Definition f_init_path : string := %q.\nDefinition f_poll_path_prefix : string := %q.\n", tp.InitPath, tp.PollPathPrefix)
 	fmt.Fprintf(&b, "Definition f_encryption_key_size : N := %d.\n", macaroon.EncryptionKeySize)
